@@ -23,5 +23,6 @@ def eval (j : Json) : Json :=
       toJson [toJson t.1, toJson t.2.1, toJson t.2.2.1, toJson t.2.2.2]
   | "ht_hash" => toJson (Cur.ht_hash (fldInt j "m") (fldInt j "key"))
   | "ht_mod" => toJson (Cur.ht_mod (fldInt j "n"))
+  | "bit_addr" => let t := Cur.bit_addr (fldInt j "off") (fldInt j "npr") (fldInt j "idx"); toJson [t.1, t.2]
   | _ => obj [("error", "bad kernel")]
 end Drv.KD
